@@ -81,22 +81,40 @@ func c08Specs(quick bool) []c08Spec {
 						parts = append(parts, p)
 					}
 					parts = append(parts, lexref.Rep(b, card), lexref.Lit(t))
-					ng := lexref.Rule{K: lexref.RToken, Name: "NG", Rx: lexref.Cat(parts...)}
-					for ci, comp := range companions {
-						if quick && ci > 3 && len(t) == 3 {
-							continue
+					// the non-greedy rule as a token and as each kind of fragment
+					// (discarding, emitting, accumulating into the next token)
+					for kind := 0; kind < 4; kind++ {
+						ng := lexref.Rule{K: lexref.RToken, Name: "NG", Rx: lexref.Cat(parts...)}
+						var extra []lexref.Rule
+						switch kind {
+						case 1:
+							ng = lexref.Rule{K: lexref.RFrag, Rx: ng.Rx, Actions: []lexref.Action{{K: lexref.ADiscard}}}
+						case 2:
+							ng = lexref.Rule{K: lexref.RFrag, Rx: ng.Rx, Actions: []lexref.Action{{K: lexref.AEmit, Arg: "EM"}}}
+							extra = []lexref.Rule{{K: lexref.RToken, Name: "EM", Rx: lexref.Lit("@")}}
+						case 3:
+							ng = lexref.Rule{K: lexref.RFrag, Rx: ng.Rx}
 						}
-						for pos := 0; pos < 2; pos++ {
-							if comp == nil && pos == 1 {
+						for ci, comp := range companions {
+							if quick && ci > 3 && len(t) == 3 {
 								continue
 							}
-							var rules []lexref.Rule
-							if pos == 0 {
-								rules = append(append(rules, ng), comp...)
-							} else {
-								rules = append(append(rules, comp...), ng)
+							if kind > 0 && (ci > 3 || ci == 2 || (quick && len(t) == 3)) {
+								continue // fragment kinds: alone, with ID, with the blank-discarding fragment
 							}
-							out = append(out, c08Spec{spec: &lexref.Spec{Modes: []lexref.Mode{{Rules: rules}}}})
+							for pos := 0; pos < 2; pos++ {
+								if comp == nil && pos == 1 {
+									continue
+								}
+								var rules []lexref.Rule
+								if pos == 0 {
+									rules = append(append(rules, ng), comp...)
+								} else {
+									rules = append(append(rules, comp...), ng)
+								}
+								rules = append(rules, extra...)
+								out = append(out, c08Spec{spec: &lexref.Spec{Modes: []lexref.Mode{{Rules: rules}}}})
+							}
 						}
 					}
 				}
@@ -211,7 +229,7 @@ func init() {
 	mc.Register(&mc.Check{
 		ID:    "C08",
 		Level: "model_checking",
-		Rule: "specifications: prefix {none,'x','xy','xx'} x body {., [ab], ~[b], [a]|[b], [a-z]} x terminator {all literals of length 1-3 over a,b; 'x','xa','ax'} x {*?, +?} x greedy companions {none, identifier, rule sharing the prefix, whitespace, literal, pairs} placed before or after; " +
+		Rule: "specifications: prefix {none,'x','xy','xx'} x body {., [ab], ~[b], [a]|[b], [a-z]} x terminator {all literals of length 1-3 over a,b; 'x','xa','ax'} x {*?, +?} x the rule written as a token, a discarding, an emitting and an accumulating fragment x greedy companions {none, identifier, rule sharing the prefix, whitespace, literal, pairs} placed before or after; " +
 			"each: BFS of the product (real state machine) x (reference in which a rule of the non-greedy shape ends at its first complete match) - all input lengths - plus all strings up to L symbols through the real driver; non-trivial = accepted spec whose product was searched completely",
 		Assume: []string{"reference: internal/lexref derivatives + 'first complete match ends the run' for rules containing *? or +?", "when a non-greedy rule completes, the earliest-declared rule matching exactly that run acts (the general rule of C02)"},
 		Worker: c08Worker,
